@@ -219,6 +219,9 @@ func checkC03(c ReadCase, o *Obs) error {
 	}
 	tr.SetInput(model.Wire, c.Chunks)
 	tr.EOFWithData = c.EOFWith
+	// this application sets no read deadline: its reads may take as long as the
+	// peer likes, whatever the library wrote in between (pongs, a close reply)
+	tr.SlowPeer = true
 	if c.WriteDead != 0 {
 		kind := xport.FaultError
 		if c.WriteDead == 2 {
@@ -237,6 +240,9 @@ func checkC03(c ReadCase, o *Obs) error {
 	n, err := compareRead(model.Msgs, rt, c.Reads)
 	if err != nil {
 		return err
+	}
+	if tr.RDLExpired > 0 {
+		return fmt.Errorf("a read deadline was armed on the transport although the application never set one (the library armed it while replying to a control frame?): with a peer that pauses before its next frame the read times out; %d of %d messages delivered, reader stopped with: %v", n, len(model.Msgs), rt.Final)
 	}
 	if n != len(model.Msgs) {
 		return fmt.Errorf("only %d of the %d messages the stream encodes were delivered; reader stopped with: %v", n, len(model.Msgs), rt.Final)
